@@ -325,6 +325,7 @@ pub fn property() -> Property {
         id: "C03",
         cases,
         clauses: &["protocol", "graceful-end", "start-failure", "start-failure-on-restart"],
+        full_rerun_check: true,
         assumptions: &["a restart sent to a stream-attached actor cannot be expressed (Addr::restart needs RestartableActor and the stream builder is non-restartable), so it is not in the stream alphabet"],
     }
 }
